@@ -94,15 +94,15 @@ type servedKey struct {
 }
 
 type download struct {
-	ID       int
-	Owner    string
-	Req      int
-	Handle   int
-	Deliver  int
-	Publish  int
-	Commit   int
-	Outcome  string
-	Snapshot []servedKey
+	ID               int
+	Owner            string
+	Req              int
+	Handle           int
+	Deliver          int
+	Publish          int
+	Commit           int
+	Outcome          string
+	Snapshot         []servedKey
 	CtxDeadAtDeliver bool
 }
 
@@ -140,30 +140,30 @@ type result struct {
 }
 
 type world struct {
-	o     *kernel.Outcome
-	s     *kernel.Sched
-	ks    oidc.KeySet
-	cfg   *kernel.Chooser
-	served   []servedKey
-	servedAt [][]servedKey // servedAt[t] = served set after step t was applied
-	nextKey  int
-	rotations int
-	nokidKey int // universe index published without kid (-1 none)
+	o          *kernel.Outcome
+	s          *kernel.Sched
+	ks         oidc.KeySet
+	cfg        *kernel.Chooser
+	served     []servedKey
+	servedAt   [][]servedKey // servedAt[t] = served set after step t was applied
+	nextKey    int
+	rotations  int
+	nokidKey   int // universe index published without kid (-1 none)
 	nextKeyIdx int // universe index of the key the next rotation publishes (-1 none)
 
 	mu      sync.Mutex
 	results map[string]*result // "c<i>.<n>"
 
-	nCallers int
-	nCalls   []int
-	cur      []int // index of the current/next call per caller
-	active   []*call
-	ctxs     []context.Context
-	cancels  []context.CancelFunc
-	calls    []*call
-	dls      []*download
-	netOpen  map[string]*download // task name -> download
-	updOpen  map[string]*download // updater task -> download
+	nCallers      int
+	nCalls        []int
+	cur           []int // index of the current/next call per caller
+	active        []*call
+	ctxs          []context.Context
+	cancels       []context.CancelFunc
+	calls         []*call
+	dls           []*download
+	netOpen       map[string]*download // task name -> download
+	updOpen       map[string]*download // updater task -> download
 	windowParking bool
 	allowFaults   bool
 	allowCancel   bool
@@ -732,4 +732,3 @@ func (w *world) finish(skip bool, order []int) {
 		o.Distinct(strings.Join(abs, ","))
 	}
 }
-
